@@ -15,7 +15,7 @@ open N2k.Layout N2k.Spec N2k.Gen.Layouts
 code at exactly the published offset, byte width, signedness and resolution - the double→code step is C06). -/
 theorem C15_encode_sound (P : Pair) (f : PubField) (n : String) (o : Nat) (params : Nat → Nat)
     (hsrc : f.src = .param n) (ho : P.names.findIdx? (· == n) = some o)
-    (h : agreesField P f = true) (hlt : params o < 2 ^ P.W o) :
+    (h : agreesField P f = true) (hlt : params o < 2 ^ pubW P f o) :
     fieldValue (encode P.setterBits params) f.off f.len = params o % 2 ^ f.len ∧ recAgree P f o = true := by
   simp only [agreesField, hsrc, ho, Bool.and_eq_true] at h
   exact ⟨fieldValue_eq P f o params h.1 hlt, h.2⟩
@@ -23,7 +23,7 @@ theorem C15_encode_sound (P : Pair) (f : PubField) (n : String) (o : Nat) (param
 /-- every field of a table that agrees is placed as published -/
 theorem C15_table_sound (P : Pair) (L : List PubField) (h : agreesOnFields P L = true) (f : PubField) (hf : f ∈ L)
     (n : String) (o : Nat) (params : Nat → Nat) (hsrc : f.src = .param n)
-    (ho : P.names.findIdx? (· == n) = some o) (hlt : params o < 2 ^ P.W o) :
+    (ho : P.names.findIdx? (· == n) = some o) (hlt : params o < 2 ^ pubW P f o) :
     fieldValue (encode P.setterBits params) f.off f.len = params o % 2 ^ f.len ∧ recAgree P f o = true :=
   C15_encode_sound P f n o params hsrc ho (List.all_eq_true.mp h f hf) hlt
 
@@ -110,5 +110,22 @@ theorem C15_enum_PGNList : enumAgrees enum_PGNList enum_tN2kPGNList = true := by
 /-- an exchanged pair of code points does not agree (the check is not vacuous) -/
 example : enumAgrees enum_WindReference [("N2kWind_True_North", 0), ("N2kWind_Magnetic", 1), ("N2kWind_Apparent", 2),
     ("N2kWind_True_boat", 4), ("N2kWind_True_water", 3), ("N2kWind_Error", 6), ("N2kWind_Unavailable", 7)] = false := by decide +kernel
+
+
+/-! Every public way of producing a listed PGN: the second main overload of 60928 and EVERY inline overload / alias
+wrapper of the headers (read by the translator through the function it forwards to) is held against the published
+table - its own where its parameters differ (one bool per status bit, fixed heading reference, NAME as a whole), else
+the table of its PGN. A wrapper of a listed PGN for which no table applies fails the check (names are not found). -/
+theorem C15_pgn_60928_name : agreesOnFields pair_60928_1 wlayout_SetN2kPGN60928_1 = true := by decide +kernel
+theorem C15_all_wrappers : (N2k.Gen.Layouts.all.filter (·.isWrapper)).all setterAgrees = true := by decide +kernel
+/-- the flag overload of PGN 127489 is among them, with one published bit per flag (not vacuous) -/
+example : pair_127489w2.isWrapper = true ∧
+    ((tableFor pair_127489w2).map fun t => (t.filter (fun f => f.len == 1)).length) = some 24 := by decide +kernel
+example : 30 ≤ ((N2k.Gen.Layouts.all.filter (·.isWrapper)).filter (fun P => (tableFor P).isSome)).length := by decide +kernel
+/-- a constant field is sound as well -/
+theorem C15_const_sound (P : Pair) (f : PubField) (v : Nat) (params : Nat → Nat) (hsrc : f.src = .const v)
+    (h : agreesField P f = true) : fieldValue (encode P.setterBits params) f.off f.len = v % 2 ^ f.len := by
+  simp only [agreesField, hsrc] at h
+  exact constValue_eq P f v params h
 
 end N2k.C15
